@@ -98,15 +98,17 @@ def classes_for(focus):
            "coinbasedata_sig", "bad_curve_point", "intra_block_spend", "dup_tx", "valid_many_inputs", "wrong_key_sig_many"]
     c02 = ["valid", "valid_multi", "reward_plus1", "reward_exact_fees", "reward_minus1", "reward_prev_era", "fees_wrong_state",
            "reward_split_exact", "reward_split_plus1", "reward_split_big", "reward_wrap64",
-           "zero_output", "max_output", "over_max_output", "u64_output", "total_over_max", "overspend_by_1",
+           "reward_claims_sibling_fees", "zero_output", "max_output", "over_max_output", "u64_output", "total_over_max", "overspend_by_1",
            "reward_no_fee_tx", "known_header_swapped_body",
            # one output paid out twice within a block creates value just as an inflated reward does
            "dup_ref_across_txs", "dup_ref_in_tx", "intra_block_spend", "dup_tx"]
     c05 = ["valid", "valid_multi", "pow_fails", "target_plus1", "target_minus1", "stale_target", "height_plus1",
            "height_minus1", "cb_height_wrong", "txs_reordered", "ts_equal_parent", "ts_before_parent", "ts_future_31", "ts_future_30",
            "ev_summary_hash", "ev_chain_sample", "ev_block_hash", "ev_other_fork", "ev_forged_consistent", "merkle_wrong",
-           "txs_dropped", "no_txs", "orphan", "known_header_swapped_body"]
-    return {"C01": c01, "C02": c02, "C05": c05, "all": sorted(set(c01 + c02 + c05))}[focus]
+           "txs_dropped", "no_txs", "orphan", "known_header_swapped_body", "height_encoding_short"]
+    c16 = ["valid", "valid_multi", "reward_plus1", "reward_exact_fees", "reward_prev_era", "reward_split_plus1", "reward_wrap64",
+           "reward_claims_sibling_fees", "reward_no_fee_tx", "fees_wrong_state", "reward_split_big"]
+    return {"C01": c01, "C02": c02, "C05": c05, "C16": c16, "all": sorted(set(c01 + c02 + c05))}[focus]
 
 
 EXPECT_VALID = {"prelude_valid", "valid", "valid_multi", "valid_many_inputs", "reward_exact_fees", "reward_minus1", "max_output", "ts_future_30",
@@ -322,6 +324,21 @@ def make_candidate(cr, klass, parent_hash, now_holder):
             vals.reverse()
         cb = chain.wire_transaction([Input(NULLREF, CoinbaseData(h, b""))], [(v, keys.pk(i)) for i, v in enumerate(vals)])
         return cr.craft(parent_hash, txs=[cb] + others), now
+    if klass == "reward_claims_sibling_fees":
+        # two competing blocks on one parent with the same number of transactions and the same last transaction; the first
+        # (validated first) carries a spend that leaves a large fee, the second a conflicting spend of the same output that leaves
+        # none — and claims the first one's fees
+        sp = [(r, o) for r, o in t.spendable(parent_hash) if o.value >= 1000]
+        if len(sp) < 2:
+            return None
+        rng.shuffle(sp)
+        (r1, o1), (r2, o2) = sp[0], sp[1]
+        rich = chain.make_tx(keys, utxo, [r1], [(o1.value - o1.value // 2, 0)])
+        poor = chain.make_tx(keys, utxo, [r1], [(o1.value, 1)])
+        last = chain.make_tx(keys, utxo, [r2], [(o2.value - 1, 2)])
+        h = parent.height + 1
+        now_holder.append(cr.craft(parent_hash, others=[rich, last]))
+        return cr.craft(parent_hash, others=[poor, last], reward_value=chain.subsidy(h) + o1.value // 2 + 1), now
     if klass == "reward_no_fee_tx":
         tx = t.random_tx(parent_hash, fee_choices=(1000, 5000))
         if tx is None:
@@ -365,6 +382,19 @@ def make_candidate(cr, klass, parent_hash, now_holder):
             outs = [(o.value + 1, 0)]
         return cr.craft(parent_hash, others=[chain.make_tx(keys, utxo, [r], outs)]), now
     # ---- header
+    if klass == "height_encoding_short":
+        # the bytes of a valid block with the height field re-written in the textbook variable-length form, which is one octet
+        # shorter than the network's whenever the bit length of the height is a multiple of 7 (64 … 127, 8192 … 16383)
+        h = parent.height + 1
+        if h.bit_length() % 7 != 0:
+            return None
+        b = cr.craft(parent_hash, others=t.random_txs(parent_hash, rng.randrange(0, 2)))
+        raw = b.serialize()
+        k = h.bit_length() // 7 + 1                  # octets the network writes
+        short = bytes(((h >> (7 * j)) & 0x7f) | (0x80 if j > 0 else 0) for j in reversed(range(k - 1)))
+        at = raw.find(b.header.summary.serialize())       # (the summary, which starts with the height, sits behind a version octet)
+        assert at >= 0 and raw[at:at + k] == bytes(((h >> (7 * j)) & 0x7f) | (0x80 if j > 0 else 0) for j in reversed(range(k)))
+        return raw[:at] + short + raw[at + k:], now
     if klass == "pow_fails":
         if parent.target == b"\xff" * 32:
             return None
@@ -587,7 +617,7 @@ def monitor_accepted(res, prop, cs, block, now, klass, cs_after, own=None):
                     bad.append("signature does not verify under the spent output's key")
                 if (r.hash, r.index) in created and r not in utxo:
                     bad.append("spends an output created in the same block")
-    if prop in ("C02", "all"):
+    if prop in ("C02", "C16", "all"):
         try:
             fees = fees_of(block.transactions[1:], utxo)
             sub = chain.subsidy(block.height)
@@ -629,13 +659,13 @@ def monitor_accepted(res, prop, cs, block, now, klass, cs_after, own=None):
     return bad
 
 
-def run_ledger(ctx, focus, res=None):
+def run_ledger(ctx, focus, res=None, n_trees=None, per_tree=None, with_tall=True):
     res = res or kit.Result()
     rng = ctx.rng
-    n_trees = ctx.scale(3, 14)
-    per_tree = ctx.scale(90, 360)
+    n_trees = n_trees or ctx.scale(3, 14)
+    per_tree = per_tree or ctx.scale(90, 360)
     classes = classes_for(focus)
-    for ti in range(n_trees + 1):
+    for ti in range(n_trees + (1 if with_tall else 0)):
         tall = (ti == n_trees)
         if tall:
             # one tall chain per run: several hundred blocks (more than any depth or count constant of the code), production
@@ -785,6 +815,8 @@ def run_ledger(ctx, focus, res=None):
             parent_hash = rng.choice(tree.blocks[-8:]).hash() if rng.random() < 0.7 else rng.choice(tree.blocks).hash()
             if tall and k % 2 == 0:
                 parent_hash = rng.choice(tree.blocks[2:45]).hash()      # far behind the head
+            if tall and klass == "height_encoding_short":
+                parent_hash = tree.blocks[rng.randrange(63, 127)].hash()
             if deep_side_tip is not None and klass in ("stale_target", "target_plus1", "target_minus1", "valid",
                                                          "valid_multi") and rng.random() < 0.5:
                 parent_hash = deep_side_tip
@@ -824,19 +856,37 @@ def run_ledger(ctx, focus, res=None):
         tall_digests = 0
         for klass, blk, now in cands:
             before = chain.state_digest(base, full=False)
+            raw = None
+            if isinstance(blk, (bytes, bytearray)):
+                # a candidate given as the bytes a peer delivers: decoded by the node's decoder first (what does not decode is refused)
+                raw = bytes(blk)
+                try:
+                    blk = Block.deserialize(raw)
+                except Exception as e:
+                    blk, err = None, e
+                    res.count("reject-kind:undecodable")
             try:
+                if blk is None:
+                    raise err
                 after_state = base.add_block(blk, now)
                 verdict = "ok"
             except Exception as e:
                 after_state = None
                 verdict = "rej"
                 err = e
-                res.count("reject-kind:" + type(e).__name__)
+                if blk is not None:
+                    res.count("reject-kind:" + type(e).__name__)
+            ser = raw if raw is not None else blk.serialize()
             # the receiver's state object is untouched by the attempt
             if chain.state_digest(base, full=False) != before:
                 res.violations.append({"kind": "add_block changed the state it was called on", "class": klass,
-                                       "block": blk.serialize().hex()})
-            ser = blk.serialize()
+                                       "block": ser.hex()})
+            if raw is not None and verdict == "ok" and blk.serialize() != raw:
+                res.violations.append({"kind": "a block was accepted whose encoding, as delivered, is not the encoding the node gives "
+                                               "it: its id (the hash of the delivered header bytes, %s…) is not the hash of the header "
+                                               "that was validated" % blk.hash().hex()[:16],
+                                       "class": klass, "block": raw.hex(), "now": now,
+                                       "tree": [b.serialize().hex() for b in tree.blocks][:700]})
             ops.extend(keys.oracle_lines(sig_mark))
             impl.extend(["ok"] * (len(keys.oracle) - sig_mark))
             sig_mark = len(keys.oracle)
